@@ -19,6 +19,27 @@ QsExtra == { <<97, 61, 44>>,                                  \* a=,
              <<37, 67, 51, 37, 65, 57, 61, 37, 70, 70, 38, 37, 70, 69, 61, 49, 38, 37, 70, 70, 61, 50>>  \* %C3%A9=%FF&%FE=1&%FF=2
            }
 
+(* one name/value that splits into >= 8 '%' tokens (the decoder's other code path), 7 well-formed escapes
+   "%31%30%30%30%30%30%30" = "1000000" followed or preceded by a malformed one *)
+P7 == <<37, 51, 49, 37, 51, 48, 37, 51, 48, 37, 51, 48, 37, 51, 48, 37, 51, 48, 37, 51, 48>>
+Malformed == { <<37, 49>>,                 \* %1      one hex digit at the end
+               <<37, 49, 37, 51, 49>>,     \* %1%31   one hex digit before another escape
+               <<37, 43, 57>>,             \* %+9
+               <<37, 45, 57>>,             \* %-9
+               <<37, 32, 57>>,             \* "% 9"
+               <<37, 122, 122>>,           \* %zz
+               <<37, 97, 37, 50, 48>>,     \* %a%20
+               <<37>>,                     \* %
+               <<37, 37, 51, 57>>,         \* %%39
+               <<37, 57, 43>>,             \* %9+
+               <<37, 48, 120, 57>> }       \* %0x9
+QsLong == {<<110, 61>> \o P7 \o t : t \in Malformed}                       \* n=<7 escapes><malformed>
+          \cup {<<110, 61>> \o t \o P7 : t \in Malformed}                 \* n=<malformed><7 escapes>
+          \cup {P7 \o t \o <<61, 49>> : t \in Malformed}                  \* the same as a NAME
+          \cup {<<110, 61, 52, 44>> \o P7 \o t : t \in Malformed}         \* n=4,<...>  (one CSV element)
+          \cup {<<110, 61, 49, 38, 110, 61>> \o P7 \o t : t \in Malformed} \* n=1&n=<...>  (last occurrence)
+QsExtraAll == QsExtra \cup QsLong
+
 (* mappings: names 'a', 'é=' and the empty name; values '', '1', 'a,b', '&=', '%41+ ' *)
 RtNames  == {<<97>>, <<233, 61>>, <<>>}
 RtValues == {<<>>, <<49>>, <<97, 44, 98>>, <<38, 61>>, <<37, 52, 49, 43, 32>>}
